@@ -152,6 +152,9 @@ func cmdCheck(args []string) int {
 	var selected []*Obligation
 	var orphans []string
 	var engineErrors []string
+	for _, ce := range prog.ContractErrors {
+		engineErrors = append(engineErrors, "contract file error: "+ce)
+	}
 	funcsUnder := 0
 	// lemma procedures / pure lemmas used by the listed functions belong to the property as well
 	todo := append([]PropFunc(nil), ps.Functions...)
